@@ -307,7 +307,7 @@ _W_STUBS = ["FakeFdStream scripted kernel (harness/_iostream_rig.py): write_to_f
     reach=["resumed_after_partial", "several_resolved", "multibyte_partly_sent"],
     units=_W_UNITS,
     stubs=_W_STUBS + ["_large_buf_threshold shadowed by an instance attribute = 2 (real value 2048; code unchanged)"],
-    outside=["more than N operations / W scripted short sends", "writes longer than 3 bytes (see h_write_real_threshold)",
+    outside=["more than N operations / W scripted short sends", "writes longer than 4 bytes (see h_write_real_threshold)",
              "max_write_buffer_size (h_write_limit)", "transport errors during write (C13)",
              "non-contiguous memoryviews", "memoryview formats other than B / H / I", "SSL"],
 )
